@@ -407,83 +407,120 @@ func queueNextRepr(c *Ctx, rule string) {
 		c.Unresolved(rule, "coalesce.(*Queue).next / Queue.queue / Queue.coalesced")
 		return
 	}
-	// ---- representation: next
+	// ---- representation: next, evaluated with 1 and with 2 queued items
 	{
 		c.Analysed(fnName(next))
-		e := &PPA{Watch: func(ev *Ev) bool {
-			return ev.Label == "builtin:delete" || strings.HasPrefix(ev.Label, "store:coalesce.Queue.") || strings.HasPrefix(ev.Label, "mapupdate:")
-		}}
-		e.Run(next)
-		c.Paths += len(e.Paths)
-		c.Scen++
+		isQueueLoad := func(v ssa.Value) bool { return loadOfField(v, fQueue) }
+		tail1 := func(v ssa.Value) bool {
+			sl, ok := v.(*ssa.Slice)
+			if !ok || sl.High != nil || sl.Low == nil {
+				return false
+			}
+			lo, okLo := constInt(sl.Low)
+			return okLo && lo == 1 && isQueueLoad(sl.X)
+		}
+		cls := func(e *PPA, st *State, rv RV) string {
+			r := e.Resolve(st, rv)
+			call, ok := r.V.(*ssa.Call)
+			if !ok {
+				return ""
+			}
+			la, ok := lenArg(call)
+			if !ok {
+				return ""
+			}
+			a := e.Resolve(st, RV{r.F, la}).V
+			switch {
+			case isNilConst(a):
+				return "ZERO"
+			case tail1(a):
+				return "QLEN-1"
+			case isQueueLoad(a):
+				return "QLEN"
+			}
+			return ""
+		}
 		nAdv, nEmpty := 0, 0
-		for i := range e.Paths {
-			p := &e.Paths[i]
-			if len(p.Rets) != 3 {
-				continue
-			}
-			valid := retClass(p.Rets[2])
-			if valid == "const:false" {
-				nEmpty++
-				c.Check(len(p.Trace) == 0 && retClass(p.Rets[0]) == "nil", rule, fnName(next), "empty queue => (nil,0,false), nothing written", P.Pos(next.Pos()), "path: "+p.String())
-				continue
-			}
-			nAdv++
-			// item = queue[0]
-			item := p.Rets[0].V
-			isHead := false
-			if u, ok := item.(*ssa.UnOp); ok && u.Op == token.MUL {
-				if ia, ok := u.X.(*ssa.IndexAddr); ok {
-					if k, ok := constInt(ia.Index); ok && k == 0 && loadOfField(ia.X, fQueue) {
-						isHead = true
-					}
-				}
-			}
-			// count = coalesced[item] looked up before the delete
-			cnt, isLk := p.Rets[1].V.(*ssa.Lookup)
-			di := p.Index(0, lbl("builtin:delete"))
-			cntOK := isLk && loadOfField(cnt.X, fCoal) && cnt.Index == item
-			delOK := false
-			if di >= 0 {
-				d := &p.Trace[di]
-				delOK = len(d.Args) == 2 && loadOfField(d.Args[0].V, fCoal) && d.Args[1].V == item
-				if isLk && !instrDominates(cnt, d.In) {
-					cntOK = false
-				}
-			}
-			// advance by exactly one: a store queue = queue[1:]
-			adv := 0
-			for j := range p.Trace {
-				ev := &p.Trace[j]
-				if ev.Label != "store:coalesce.Queue.queue" {
+		for _, qlen := range []int64{0, 1, 2} {
+			at := &Atoms{Class: cls, Int: map[string]int64{"QLEN": qlen, "QLEN-1": qlen - 1, "ZERO": 0}}
+			e := &PPA{Cond: at.Cond, Watch: func(ev *Ev) bool {
+				return ev.Label == "builtin:delete" || strings.HasPrefix(ev.Label, "store:coalesce.Queue.") || strings.HasPrefix(ev.Label, "mapupdate:")
+			}}
+			e.Run(next)
+			c.Paths += len(e.Paths)
+			c.Scen++
+			for i := range e.Paths {
+				p := &e.Paths[i]
+				if len(p.Rets) != 3 {
 					continue
 				}
-				if sl, ok := ev.Args[1].V.(*ssa.Slice); ok {
-					lo, okLo := constInt(sl.Low)
-					if okLo && lo == 1 && sl.High == nil && loadOfField(sl.X, fQueue) {
-						adv++
-					} else {
-						adv += 100
-					}
-				} else if !isNilConst(ev.Args[1].V) {
-					adv += 100
+				valid := retClass(p.Rets[2])
+				if qlen == 0 {
+					nEmpty++
+					c.Check(valid == "const:false" && len(p.Trace) == 0 && retClass(p.Rets[0]) == "nil", rule, fnName(next), "empty queue => (nil,0,false), nothing written", P.Pos(next.Pos()), "path: "+p.String())
+					continue
 				}
-			}
-			// the key is forgotten either by delete(coalesced, item) or by replacing the whole map with a fresh one
-			freshMap := false
-			for j := range p.Trace {
-				if p.Trace[j].Label == "store:coalesce.Queue.coalesced" {
-					if _, ok := p.Trace[j].Args[1].V.(*ssa.MakeMap); ok {
-						freshMap = true
+				nAdv++
+				// item = queue[0]
+				item := p.Rets[0].V
+				isHead := false
+				if u, ok := item.(*ssa.UnOp); ok && u.Op == token.MUL {
+					if ia, ok := u.X.(*ssa.IndexAddr); ok {
+						if k, ok := constInt(ia.Index); ok && k == 0 && isQueueLoad(ia.X) {
+							isHead = true
+						}
 					}
 				}
+				// count = coalesced[item], looked up before the key is forgotten
+				cnt, isLk := p.Rets[1].V.(*ssa.Lookup)
+				cntOK := isLk && loadOfField(cnt.X, fCoal) && cnt.Index == item
+				// final queue: the last store decides
+				queueOK, queueWhy := false, "queue not advanced"
+				// final bookkeeping: the key is forgotten, the other pending keys keep their counts
+				forgot, coalWhy := false, "key not forgotten"
+				for j := range p.Trace {
+					ev := &p.Trace[j]
+					switch {
+					case ev.Label == "store:coalesce.Queue.queue":
+						switch {
+						case tail1(ev.Args[1].V):
+							queueOK, queueWhy = true, "queue = queue[1:]"
+						case isNilConst(ev.Args[1].V):
+							queueOK, queueWhy = qlen == 1, "queue = nil"
+						default:
+							queueOK, queueWhy = false, "queue = "+Expr(ev.Args[1].V)
+						}
+					case ev.Label == "builtin:delete":
+						if len(ev.Args) == 2 && loadOfField(ev.Args[0].V, fCoal) && ev.Args[1].V == item {
+							forgot, coalWhy = true, "delete(coalesced, item)"
+							if isLk && !instrDominates(cnt, ev.In) {
+								cntOK = false
+							}
+						} else {
+							forgot, coalWhy = false, "deletes another key"
+						}
+					case ev.Label == "store:coalesce.Queue.coalesced":
+						if _, ok := ev.Args[1].V.(*ssa.MakeMap); ok {
+							// a fresh map forgets every key: right only when no other item is pending
+							if qlen == 1 {
+								forgot, coalWhy = true, "fresh map (queue drained)"
+							} else {
+								forgot, coalWhy = false, "fresh map while other items are pending (their counts are lost)"
+							}
+							if isLk && !instrDominates(cnt, ev.In) {
+								cntOK = false
+							}
+						} else {
+							forgot, coalWhy = false, "coalesced = "+Expr(ev.Args[1].V)
+						}
+					case strings.HasPrefix(ev.Label, "mapupdate:"):
+						forgot, coalWhy = false, "map written while dequeuing"
+					}
+				}
+				ok := valid == "const:true" && isHead && cntOK && forgot && queueOK
+				c.Check(ok, rule, fnName(next), fmt.Sprintf("dequeue with %d queued: head returned with its count, queue advanced by one, key forgotten", qlen), P.Pos(next.Pos()),
+					fmt.Sprintf("head=%v count-lookup-first=%v %s; %s; path: %s", isHead, cntOK, coalWhy, queueWhy, p.String()))
 			}
-			if di < 0 && freshMap && isLk {
-				delOK = true
-			}
-			ok := valid == "const:true" && isHead && cntOK && delOK && adv == 1
-			c.Check(ok, rule, fnName(next), "dequeue head, count before delete, advance by one, forget the key", P.Pos(next.Pos()),
-				fmt.Sprintf("head=%v count-lookup-before-delete=%v delete(coalesced,item)=%v advance=%d; path: %s", isHead, cntOK, delOK, adv, p.String()))
 		}
 		c.Floor(rule+"/next-dequeue-paths", nAdv, 1)
 		c.Floor(rule+"/next-empty-paths", nEmpty, 1)
